@@ -169,15 +169,37 @@ pub const FIXED_FENS: &[&str] = &[
     "8/8/8/8/8/6k1/4Kppp/8 b - - 0 1",
 ];
 
+thread_local! {
+    static FIXED_CACHE: std::cell::RefCell<Option<Vec<MPos>>> = const { std::cell::RefCell::new(None) };
+}
+
+/// The fixed corner positions (parsed once per process).
 pub fn fixed_positions() -> Vec<MPos> {
-    let mut v = Vec::new();
-    for f in FIXED_FENS {
-        match mfen::from_fen(f) {
-            Ok(p) => v.push(p),
-            Err(e) => panic!("harness: bad fixed FEN {:?}: {}", f, e),
+    FIXED_CACHE.with(|c| {
+        let mut c = c.borrow_mut();
+        if c.is_none() {
+            let mut v = Vec::new();
+            for f in FIXED_FENS {
+                match mfen::from_fen(f) {
+                    Ok(p) => v.push(p),
+                    Err(e) => panic!("harness: bad fixed FEN {:?}: {}", f, e),
+                }
+            }
+            *c = Some(v);
         }
-    }
-    v
+        c.as_ref().unwrap().clone()
+    })
+}
+
+/// A few fixed positions only (for the Miri configuration, where parsing all of them is slow).
+pub fn fixed_positions_slice(start: usize, count: usize) -> Vec<(usize, MPos)> {
+    let n = FIXED_FENS.len();
+    (0..count.min(n))
+        .map(|k| {
+            let i = (start + k * 37) % n;
+            (i, mfen::from_fen(FIXED_FENS[i]).expect("harness: bad fixed FEN"))
+        })
+        .collect()
 }
 
 pub const COUNTER_SET: [u16; 17] = [
